@@ -912,6 +912,16 @@ func (x *Exec) specConst(e *Env, name string) (Val, bool) {
 			if c, ok := obj.(*types.Const); ok {
 				return x.constVal(c.Type(), c.Val()), true
 			}
+			if _, ok := obj.(*types.Var); ok {
+				// package-level variable of the contract's package
+				if sp := x.prog.SSA.Package(e.pkg); sp != nil {
+					if g, ok := sp.Members[name].(*ssa.Global); ok {
+						et := g.Type().(*types.Pointer).Elem()
+						pv := Val{T: g.Type(), S: "1", P: &Ptr{Kind: ptrGlobal, Root: et, Global: e.pkg.Name() + "." + g.Name()}}
+						return x.heap.load(e.cur, pv, et), true
+					}
+				}
+			}
 		}
 	}
 	// qualified constants are written pkg_Name in specs? no: handled by SSel on package ident
